@@ -86,15 +86,16 @@ package server
 //@ ensures[C08,C15] not_found_inner: pageFor(h.template, statusCode) == 0 && !h.root ==> !result && none(Render) && none(Fprintf)
 //@ ensures[C08,C15] not_found_root: pageFor(h.template, statusCode) == 0 && h.root ==> result && emitted(Fprintf(w)) && none(Render)
 //@ ensures[C08,C15] handled: result || !h.root
-//@ emits RespondPage(h, w, statusCode, templateArguments)
+//@ emits RespondPage(h, w, statusCode, templateArguments, result)
 
 //@ func (*server.ErrorPageMiddleware).ServeHTTP
 //@ may_emit *
 //@ requires r != nil && !isnil(w) && ctxWF(r) && !isnil(h.next)
 //@ assigns *
 //@ ensures[C08,C15] forwards_once: count(Forward(_, _, _)) == 1 && emitted(Forward(old(h.next), w, _))
-//@ ensures[C08,C15,C19] silent_before_next: first(Forward(old(h.next), w, _), RespondPage(_, _, _, _)) && count(RespondPage(_, _, _, _)) <= 1 && only(Forward, RespondPage)
-//@ ensures[C08,C15] page_for_the_recorded_error: emitted(RespondPage(_, _, _, _)) ==> emitted(RespondPage(h, w, _, _)) && all(RespondPage, $2 != 0)
+//@ ensures[C08,C15,C19] silent_before_next: first(Forward(old(h.next), w, _), RespondPage(_, _, _, _, _)) && count(RespondPage(_, _, _, _, _)) <= 1 && only(Forward, RespondPage)
+//@ ensures[C08,C15] a_rendered_error_is_not_rendered_again: emitted(RespondPage(_, _, _, _, true)) ==> errorResp.StatusCode == 0
+//@ ensures[C08,C15] page_for_the_recorded_error: emitted(RespondPage(_, _, _, _, _)) ==> emitted(RespondPage(h, w, _, _, _)) && all(RespondPage, $2 != 0)
 
 //@ func (*server.Target).createProxyHandler
 //@ assigns nothing
@@ -232,7 +233,7 @@ package server
 //@ assigns *
 //@ ensures[C16] redirects_plain_http: old(s.options.TLSEnabled) && old(s.options.TLSRedirect) && old(r.TLS) == nil ==> count(RedirectHTTPS(_, _)) == 1 && none(LBServe) && none(Gated) && none(ErrResp) && none(PickLB) && now == old(now)
 //@ ensures[C16] refuses_tls_when_disabled: !old(s.options.TLSEnabled) && old(r.TLS) != nil ==> emitted(ErrResp(w, 503, _)) && none(LBServe) && none(Gated) && none(RedirectHTTPS) && none(PickLB) && now == old(now)
-//@ ensures[C07,C16] gate_before_pick: first(Gated(_, false), PickLB(_, _)) && first(PickLB(_, _), LBServe(_, _, _))
+//@ ensures[C07,C16,C03] gate_before_pick: first(Gated(_, false), PickLB(_, _)) && first(PickLB(_, _), LBServe(_, _, _))
 //@ ensures[C07,C08] forwards_only_when_released: emitted(LBServe(_, _, _)) ==> emitted(Gated(_, false)) && none(ErrResp) && none(RedirectHTTPS)
 //@ ensures[C07,C08] gated_requests_go_no_further: emitted(Gated(_, true)) ==> none(LBServe) && none(PickLB)
 //@ ensures[C10,C02] serves_picked_balancer: count(LBServe(_, _, _)) <= 1 && count(PickLB(_, _)) <= 1
@@ -548,13 +549,13 @@ package server
 //@ ensures[C05] checked_and_claimed_under_one_lock: count(CheckAvail(_, _)) == 1 && emitted(CheckAvail(_, s.name)) && first(Lock(r, lockid("server.Router.serviceLock")), CheckAvail(_, _)) && first(CheckAvail(_, _), Unlock(r, lockid("server.Router.serviceLock"))) && (err == nil ==> first(CheckAvail(_, _), SetService(_, _)))
 //@ ensures[C10] rollout_commands_during_a_redeploy_survive_it: err == nil && old(haskey(r.services.services, s.name)) && old(r.services.services[s.name]) != s ==> old(r.services.services[s.name]).rolloutController == s.rolloutController && old(r.services.services[s.name]).rollout == s.rollout
 //@ ensures[C07] held_requests_follow_the_redeploy: err == nil && old(haskey(r.services.services, s.name)) && old(r.services.services[s.name]) != s ==> old(r.services.services[s.name]).active == s.active
-//@ ensures[C12,C11] snapshot_follows_the_change: last_is(Snapshot(r)) && first(Unlock(r, lockid("server.Router.serviceLock")), Snapshot(r))
+//@ ensures[C12,C11,C05,C06,C10] snapshot_follows_the_change: last_is(Snapshot(r)) && first(Unlock(r, lockid("server.Router.serviceLock")), Snapshot(r))
 //@ ensures[C18] lock_free: !held(r.serviceLock)
 //@ ensures[C17] no_timed_wait: now == old(now)
 
 //@ func (*server.Router).deployTargetsIntoService
 //@ may_emit *
-//@ emits DeployTargets(r, service, targetSlot, deployTimeout, drainTimeout)
+//@ emits DeployTargets(r, service, targetSlot, deployTimeout, drainTimeout, isnil(result))
 //@ requires service != nil && r.services != nil && service.pauseController != nil && !isnil(service.middleware) && (targetSlot == TargetSlotRollout ==> service.active != nil)
 //@ attr blocks
 //@ assigns *
@@ -1019,8 +1020,10 @@ package server
 //@ assigns *
 //@ may_emit *
 //@ ensures[C06] option_errors_touch_nothing: none(DeployTargets) ==> err != nil && none(Install) && none(UpdateLB) && none(NewLB)
-//@ ensures[C17,C01,C03] timeouts_passed_in_position: all(DeployTargets, $3 == deployTimeout && $4 == drainTimeout && $2 == TargetSlotActive) && count(DeployTargets(_, _, _, _, _)) <= 1
+//@ ensures[C17,C01,C03] timeouts_passed_in_position: all(DeployTargets, $3 == deployTimeout && $4 == drainTimeout && $2 == TargetSlotActive) && count(DeployTargets(_, _, _, _, _, _)) <= 1
 //@ ensures[C17] bounded_by_deploy_plus_drain_timeout: now <= old(now) + max(deployTimeout, 0) + max(drainTimeout, 0)
+//@ ensures[C01,C06] outcome_of_the_deploy_is_reported: all(DeployTargets, $5 == (err == nil))
+//@ ensures[C01,C06] a_failed_deploy_removes_nothing: none(CmdRemove) && none(RemoveService) && none(DisposeService)
 
 //@ func (*server.Router).SetRolloutTargets
 //@ emits CmdRolloutDeploy(r, name, deployTimeout, drainTimeout, isnil(result))
@@ -1029,8 +1032,10 @@ package server
 //@ assigns *
 //@ may_emit *
 //@ ensures[C06] unknown_service_rejected: none(DeployTargets) ==> err == ErrorServiceNotFound
-//@ ensures[C17,C01,C03] timeouts_passed_in_position: all(DeployTargets, $3 == deployTimeout && $4 == drainTimeout && $2 == TargetSlotRollout) && count(DeployTargets(_, _, _, _, _)) <= 1
+//@ ensures[C17,C01,C03] timeouts_passed_in_position: all(DeployTargets, $3 == deployTimeout && $4 == drainTimeout && $2 == TargetSlotRollout) && count(DeployTargets(_, _, _, _, _, _)) <= 1
 //@ ensures[C17] bounded_by_deploy_plus_drain_timeout: now <= old(now) + max(deployTimeout, 0) + max(drainTimeout, 0)
+//@ ensures[C01,C06] outcome_of_the_deploy_is_reported: all(DeployTargets, $5 == (err == nil))
+//@ ensures[C01,C06] a_failed_deploy_removes_nothing: none(CmdRemove) && none(RemoveService) && none(DisposeService)
 
 //@ func (*server.Router).SetRolloutSplit
 //@ emits CmdRolloutSet(r, name, percent, isnil(result))
@@ -1039,7 +1044,7 @@ package server
 //@ assigns Service.rolloutController, `os.File`.content
 //@ may_emit Snapshot, RolloutSplit, ListServices, CreateTemp, JsonEncode, FileClose, FsRename, FileRemove, MarshalService, FsTruncate
 //@ ensures[C06,C10] unknown_service_rejected: none(RolloutSplit) ==> err == ErrorServiceNotFound
-//@ ensures[C12,C11,C03,C07,C08] snapshot_taken: last_is(Snapshot(r))
+//@ ensures[C12,C11,C03,C05,C06,C07,C08,C10] snapshot_taken: last_is(Snapshot(r))
 //@ ensures[C17] returns_without_waiting: now == old(now)
 
 //@ func (*server.Router).StopRollout
@@ -1048,7 +1053,7 @@ package server
 //@ attr blocks
 //@ assigns Service.rolloutController, `os.File`.content
 //@ may_emit Snapshot, RolloutSplit, ListServices, CreateTemp, JsonEncode, FileClose, FsRename, FileRemove, MarshalService, FsTruncate
-//@ ensures[C12,C11,C03,C07,C08] snapshot_taken: last_is(Snapshot(r))
+//@ ensures[C12,C11,C03,C05,C06,C07,C08,C10] snapshot_taken: last_is(Snapshot(r))
 //@ ensures[C17] returns_without_waiting: now == old(now)
 
 //@ func (*server.Router).PauseService
@@ -1058,9 +1063,9 @@ package server
 //@ assigns *
 //@ may_emit *
 //@ ensures[C06] unknown_service_rejected: none(PauseSvc) ==> err == ErrorServiceNotFound
-//@ ensures[C17] timeouts_passed_in_position: all(PauseSvc, $1 == drainTimeout && $2 == pauseTimeout)
+//@ ensures[C17,C07,C03] timeouts_passed_in_position: all(PauseSvc, $1 == drainTimeout && $2 == pauseTimeout)
 //@ ensures[C17] bounded_by_drain_timeout: now <= old(now) + max(drainTimeout, 0)
-//@ ensures[C12,C11,C03,C07,C08] snapshot_taken: last_is(Snapshot(r))
+//@ ensures[C12,C11,C03,C05,C06,C07,C08,C10] snapshot_taken: last_is(Snapshot(r))
 
 //@ func (*server.Router).StopService
 //@ emits CmdStop(r, name, drainTimeout, message, isnil(result))
@@ -1069,9 +1074,9 @@ package server
 //@ assigns *
 //@ may_emit *
 //@ ensures[C06] unknown_service_rejected: none(StopSvc) ==> err == ErrorServiceNotFound
-//@ ensures[C17,C08] arguments_passed_in_position: all(StopSvc, $1 == drainTimeout && $2 == message)
+//@ ensures[C17,C08,C03] arguments_passed_in_position: all(StopSvc, $1 == drainTimeout && $2 == message)
 //@ ensures[C17] bounded_by_drain_timeout: now <= old(now) + max(drainTimeout, 0)
-//@ ensures[C12,C11,C03,C07,C08] snapshot_taken: last_is(Snapshot(r))
+//@ ensures[C12,C11,C03,C05,C06,C07,C08,C10] snapshot_taken: last_is(Snapshot(r))
 
 //@ func (*server.Router).ResumeService
 //@ emits CmdResume(r, name, isnil(result))
@@ -1081,7 +1086,7 @@ package server
 //@ may_emit *
 //@ ensures[C06] unknown_service_rejected: none(ResumeSvc) ==> err == ErrorServiceNotFound
 //@ ensures[C17] returns_without_waiting: now == old(now)
-//@ ensures[C12,C11,C03,C07,C08] snapshot_taken: last_is(Snapshot(r))
+//@ ensures[C12,C11,C03,C05,C06,C07,C08,C10] snapshot_taken: last_is(Snapshot(r))
 
 //@ func (*server.Router).RemoveService
 //@ emits CmdRemove(r, name, isnil(result))
@@ -1092,7 +1097,7 @@ package server
 //@ ensures[C05,C17] probes_stopped_then_pairs_released: err == nil ==> first(DisposeService(_), RemoveService(_, name)) && count(RemoveService(_, _)) == 1
 //@ ensures[C06] unknown_service_rejected: err != nil ==> err == ErrorServiceNotFound && none(RemoveService) && none(DisposeService)
 //@ ensures[C17] returns_without_waiting: now == old(now)
-//@ ensures[C12,C11,C03,C07,C08] snapshot_taken: last_is(Snapshot(r))
+//@ ensures[C12,C11,C03,C05,C06,C07,C08,C10] snapshot_taken: last_is(Snapshot(r))
 //@ ensures[C18] lock_free: !held(r.serviceLock)
 
 //@ func (*server.Router).serviceForHost
